@@ -9,6 +9,7 @@ use serde_json::{json, Value};
 
 fn reorder(frags: &[Vec<u8>], order: &[usize]) -> Vec<Vec<u8>> { order.iter().map(|i| frags[*i].clone()).collect() }
 
+#[derive(Clone)]
 struct Case {
     name: String,
     entry: String,
@@ -20,11 +21,25 @@ struct Case {
     valve: Option<Value>, // engine for valve cases
 }
 
-fn cases_for(rng: &mut StdRng, vctx: &valve::Ctx, players: &LayoutSet, mode: &str, k: usize) -> Vec<Case> {
+thread_local! { static BZ_POOL: std::cell::RefCell<std::collections::HashMap<usize, Vec<Case>>> = std::cell::RefCell::new(std::collections::HashMap::new()); }
+
+fn cases_for(rng: &mut StdRng, vctx: &valve::Ctx, players: &LayoutSet, mode: &str, k: usize, comp: bool) -> Vec<Case> {
     let mut out = Vec::new();
     match mode {
         "all" => {
-            for gold in [false, true] {
+            // Source plain, GoldSrc, Source bzip2-compressed (size + CRC32 only in fragment 0, wherever it arrives)
+            for (gold, bz) in [(false, false), (true, false), (false, true)] {
+                if bz != comp {
+                    continue; // the schedule says whether the reply is compressed (Reassembly.tla: comp)
+                }
+                if bz {
+                    // compressing costs a python3 process: a pool of 12 compressed responses per fragment count is reused
+                    let pooled = BZ_POOL.with(|p| p.borrow().get(&k).filter(|v| v.len() >= 12).map(|v| v[rng.gen_range(0 .. v.len())].clone()));
+                    if let Some(c) = pooled {
+                        out.push(c);
+                        continue;
+                    }
+                }
                 let engine = if gold { json!({"t":"goldsrc","force":false}) } else { json!({"t":"source_none"}) };
                 let mut batches = Vec::new();
                 let mut expected = json!({});
@@ -39,8 +54,8 @@ fn cases_for(rng: &mut StdRng, vctx: &valve::Ctx, players: &LayoutSet, mode: &st
                     expected[*sec] = exp[*sec].clone();
                     if *sec == target {
                         multi = i;
-                        fits &= payload.len() <= k * 1200;
-                        batches.push(valve::split(rng, vctx, &payload, k, gold, true, false));
+                        fits &= payload.len() <= k * 1200 && (!bz || payload.len() >= 64);
+                        batches.push(valve::split(rng, vctx, &payload, k, gold, true, bz));
                     } else {
                         fits &= payload.len() <= 1400;
                         batches.push(vec![payload]);
@@ -49,15 +64,19 @@ fn cases_for(rng: &mut StdRng, vctx: &valve::Ctx, players: &LayoutSet, mode: &st
                 if !fits {
                     continue;
                 }
-                out.push(Case {
-                    name: format!("valve {} split ({target})", if gold { "goldsrc" } else { "source" }),
+                let case = Case {
+                    name: format!("valve {} split ({target})", if gold { "goldsrc" } else if bz { "source bz2" } else { "source" }),
                     entry: "valve".into(),
                     batches,
                     multi,
                     expected,
                     unordered: vec![],
                     valve: Some(engine),
-                });
+                };
+                if bz {
+                    BZ_POOL.with(|p| p.borrow_mut().entry(k).or_default().push(case.clone()));
+                }
+                out.push(case);
             }
         }
         "last" | "none" => {
@@ -145,11 +164,12 @@ pub fn replay(vctx: &valve::Ctx, players: &LayoutSet, schedules: &[Value], seed:
         let mode = s["mode"].as_str().unwrap();
         let order: Vec<usize> = s["order"].as_array().unwrap().iter().map(|x| x.as_u64().unwrap() as usize).collect();
         let dup = s["dup"].as_bool().unwrap();
-        if !seen.insert((k, mode.to_string(), order.clone())) {
+        let comp = s["comp"].as_bool().unwrap_or(false);
+        if !seen.insert((k, mode.to_string(), comp, order.clone())) {
             continue; // the same schedule is emitted once per allowed outcome
         }
         for _ in 0 .. reps {
-            for c in cases_for(&mut rng, vctx, players, mode, k) {
+            for c in cases_for(&mut rng, vctx, players, mode, k, comp) {
                 rep.evaluations += 1;
                 // reference: the same real code with in-order delivery (must itself equal the spec's expectation)
                 let (_, inorder) = run_case(&c, None);
@@ -192,7 +212,7 @@ pub fn replay(vctx: &valve::Ctx, players: &LayoutSet, schedules: &[Value], seed:
                 }
             }
         }
-        rep.distinct.insert(hash_of(&(k, mode, &order)));
+        rep.distinct.insert(hash_of(&(k, mode, comp, &order)));
         rep.sample(s);
     }
 }
